@@ -237,6 +237,47 @@ fn main() {
             Ok(format!("{:?}", events))
         });
     }
+    // ---- C16: the deletion predicate of the build-script cleanup, on names near the reserved ones
+    {
+        let stems = ["types", "commands", "events", "index", "schemas", "models", "bindings", "dependency-graph", "foo", "", "generated", "mytypes"];
+        let mids = ["", ".d", ".test", ".spec", ".mock", ".d.d", ".D", ".", ".helpers.d", "_v2", "-old", " "];
+        let exts = [".ts", ".tsx", ".js", "", ".ts.bak", ".d.ts", ".TS", ".txt", ".dot", ".ts~", ".mts"];
+        let pres = ["", "my", ".", "_", "x.", "Types."];
+        let mut names: BTreeSet<String> = BTreeSet::new();
+        for st in stems { for m in mids { for e in exts { for pr in pres {
+            let n = format!("{}{}{}{}", pr, st, m, e);
+            if !n.is_empty() && n != "." && n != ".." && !n.contains('/') { names.insert(n); }
+        } } } }
+        for extra in [".typecache", ".typecache.old", ".typecache2", "generated_x.ts", "x_generated.ts", "generatedx.ts", "xgenerated_.ts", "GENERATED_x.ts", "README.md", "tsconfig.json", "package.json"] { names.insert(extra.to_string()); }
+        for n in &names {
+            rep.case("deletion_predicate_only_reserved", &format!("name={:?}", n), &|| {
+                let om = tauri_typegen::build::OutputManager::new("/nonexistent-verif-dir");
+                let r = om.verif_is_generated_file(n);
+                if r && !reserved(n) { return Err(format!("{:?} is treated as a generated file (cleanup may delete it) but is not a reserved name", n)); }
+                Ok(format!("{}", r))
+            });
+        }
+        // the real cleanup on a directory holding all of them (no file is current, nothing registered)
+        let all: Vec<String> = names.iter().cloned().collect();
+        rep.case("cleanup_removes_only_reserved", &format!("{} names near the reserved ones", all.len()), &|| {
+            let out = root.join("cleanup_dir");
+            let _ = fs::remove_dir_all(&out);
+            fs::create_dir_all(out.join("sub")).map_err(|e| e.to_string())?;
+            for n in &all { fs::write(out.join(n), format!("foreign {}", n)).map_err(|e| format!("{}: {}", n, e))?; }
+            fs::write(out.join("sub/types.ts"), "foreign sub/types.ts").map_err(|e| e.to_string())?;
+            let before = snapshot(&out);
+            let om = tauri_typegen::build::OutputManager::new(&out);
+            let removed = om.cleanup_old_files(&[]).map_err(|e| format!("cleanup_old_files returned Err: {}", e))?;
+            let after = snapshot(&out);
+            for (k, v) in &before {
+                if after.get(k) != Some(v) && !reserved(k) { return Err(format!("foreign file {:?} was modified or removed by cleanup_old_files", k)); }
+            }
+            for k in after.keys() { if !before.contains_key(k) { return Err(format!("cleanup created {:?}", k)); } }
+            if fs::read_to_string(out.join("sub/types.ts")).ok().as_deref() != Some("foreign sub/types.ts") { return Err("sub/types.ts (in a subdirectory of the output directory) changed".into()); }
+            for r in &removed { if !reserved(r) { return Err(format!("cleanup reports removing {:?}: not a reserved name", r)); } }
+            Ok(format!("{} removed", removed.len()))
+        });
+    }
     let _ = fs::remove_dir_all(&root);
     rep.finish()
 }
